@@ -123,24 +123,76 @@ COVER(task->task_cb != NULL && !OLD(task->task_prep) && OLD(TQ_HEAD(task->task_t
 
 /* ---- nni_task_wait / nni_task_fini ---------------------------------------- */
 void nni_task_wait(nni_task *task)
-__CPROVER_requires(TASK_PRE(task))
-__CPROVER_assigns(task->task_busy, g_cv_waits, VP_SYNC_GHOSTS)
+__CPROVER_requires(TASK_PRE(task) && !g_cv_waited)
+__CPROVER_assigns(task->task_busy, g_cv_waited, VP_SYNC_GHOSTS)
 /* returns only when nothing is outstanding; does not sleep when nothing was */
 __CPROVER_ensures(task->task_busy == 0 && VP_NO_LOCK_HELD)
-__CPROVER_ensures(OLD(task->task_busy) == 0 ==> (g_cv_waits == OLD(g_cv_waits) && g_lock_ops == OLD(g_lock_ops) + 2))
-__CPROVER_ensures(OLD(task->task_busy) != 0 ==> g_cv_waits > OLD(g_cv_waits))
-COVER(OLD(task->task_busy) == 0) COVER(OLD(task->task_busy) == 2 && g_cv_waits == OLD(g_cv_waits) + 3)
+__CPROVER_ensures(OLD(task->task_busy) == 0 ==> (!g_cv_waited && g_lock_ops == OLD(g_lock_ops) + 2))
+__CPROVER_ensures(OLD(task->task_busy) != 0 ==> g_cv_waited)
+COVER(OLD(task->task_busy) == 0) COVER(OLD(task->task_busy) == 2)
 ;
 
 void nni_task_fini(nni_task *task)
-__CPROVER_requires(TASK_PRE(task))
-__CPROVER_assigns(task->task_busy, g_cv_waits, g_cv_fini, g_mtx_fini, VP_SYNC_GHOSTS)
+__CPROVER_requires(TASK_PRE(task) && !g_cv_waited)
+__CPROVER_assigns(task->task_busy, g_cv_waited, g_cv_fini, g_mtx_fini, VP_SYNC_GHOSTS)
 /* the task is torn down only when nothing is outstanding, with its lock free */
 __CPROVER_ensures(task->task_busy == 0 && VP_NO_LOCK_HELD)
 __CPROVER_ensures(g_cv_fini == OLD(g_cv_fini) + 1 && g_mtx_fini == OLD(g_mtx_fini) + 1)
-__CPROVER_ensures(OLD(task->task_busy) == 0 ==> g_cv_waits == OLD(g_cv_waits))
-__CPROVER_ensures(OLD(task->task_busy) != 0 ==> g_cv_waits > OLD(g_cv_waits))
-COVER(OLD(task->task_busy) == 0) COVER(OLD(task->task_busy) == 2 && g_cv_waits == OLD(g_cv_waits) + 3)
+__CPROVER_ensures(OLD(task->task_busy) == 0 ==> !g_cv_waited)
+__CPROVER_ensures(OLD(task->task_busy) != 0 ==> g_cv_waited)
+COVER(OLD(task->task_busy) == 0) COVER(OLD(task->task_busy) == 2)
+;
+
+/* ---- nni_taskq_thread: the worker (grade B: at most 2 queued tasks, skeleton built by the harness
+ * from real objects with the real list code; thread exit modelled by the cv-wait stub) ------------
+ * g_nq tasks g_t0 [, g_t1] are queued in that order; every queued task was counted by its dispatch
+ * (busy >= 1).  Callback model: vp_cb (asserts: no lock held, task off the queue, task counted
+ * busy, own argument); with g_cb_mode == 1 the FIRST run of g_t0's callback re-dispatches g_t0. */
+#define TQ_EMPTY(tq) (TQ_HEAD(tq).ln_next == &TQ_HEAD(tq) && TQ_HEAD(tq).ln_prev == &TQ_HEAD(tq))
+#define TQ_IS1(tq, a) (TQ_HEAD(tq).ln_next == &(a)->task_node && (a)->task_node.ln_next == &TQ_HEAD(tq) && \
+	    TQ_HEAD(tq).ln_prev == &(a)->task_node && (a)->task_node.ln_prev == &TQ_HEAD(tq))
+#define TQ_IS2(tq, a, b) (TQ_HEAD(tq).ln_next == &(a)->task_node && (a)->task_node.ln_next == &(b)->task_node && \
+	    (b)->task_node.ln_next == &TQ_HEAD(tq) && TQ_HEAD(tq).ln_prev == &(b)->task_node && \
+	    (b)->task_node.ln_prev == &(a)->task_node && (a)->task_node.ln_prev == &TQ_HEAD(tq))
+#define WK_REDO (g_cb_mode == 1 && g_nq > 0)
+#define WK_RUNS (g_nq + (WK_REDO ? 1u : 0u))
+static void nni_taskq_thread(void *self)
+__CPROVER_requires(self == (void *) g_thr && g_thr->tqt_tq == g_tq && VP_LOCKS_CLEAR && g_worker_unit && g_cb_arg_is_task)
+__CPROVER_requires(g_nq <= 2 && (g_cb_mode == 0 || g_cb_mode == 1) && !g_cb_redo_done && !g_cv_waited && g_cb_base == g_cb_calls)
+__CPROVER_requires(g_nq == 0 ? TQ_EMPTY(g_tq) : (g_nq == 1 ? TQ_IS1(g_tq, g_t0) : TQ_IS2(g_tq, g_t0, g_t1)))
+__CPROVER_requires(g_nq < 2 ==> TASK_OFFQ(g_t1))
+__CPROVER_requires(g_nq < 1 ==> TASK_OFFQ(g_t0))
+__CPROVER_requires(g_t0->task_cb == vp_cb && g_t1->task_cb == vp_cb && g_t0->task_arg == g_t0 && g_t1->task_arg == g_t1)
+__CPROVER_requires(g_t0->task_tq == g_tq && g_t1->task_tq == g_tq)
+/* representation invariant of the counter: one for the queue entry (counted by the dispatch that queued it)
+ * plus one if the task has been prepared again since */
+__CPROVER_requires((g_nq >= 1 ==> (g_t0->task_busy >= 1u + (g_t0->task_prep ? 1u : 0u) && g_t0->task_busy <= TASK_BUSY_MAX)) && (g_nq >= 2 ==> g_t1->task_busy >= 1u + (g_t1->task_prep ? 1u : 0u)))
+__CPROVER_assigns(TQ_HEAD(g_tq), g_tq->tq_run, g_t0->task_node, g_t1->task_node, g_t0->task_busy, g_t1->task_busy, g_t0->task_prep)
+__CPROVER_assigns(TASK_CB_GHOSTS, g_cb_seq, g_cb_redo_done, g_wk_task0, g_wk_task1, g_wk_sched, g_wk_drain, g_cv_waited, VP_SYNC_GHOSTS)
+/* returns with every lock released, the queue empty, the thread told to stop */
+__CPROVER_ensures(VP_NO_LOCK_HELD && TQ_EMPTY(g_tq) && TASK_OFFQ(g_t0) && TASK_OFFQ(g_t1) && !g_tq->tq_run)
+/* every queued entry was run exactly once, FIRST one first (FIFO), a re-dispatched task behind the rest */
+__CPROVER_ensures(g_cb_calls == OLD(g_cb_calls) + WK_RUNS)
+__CPROVER_ensures(g_nq >= 1 ==> g_cb_seq[0] == g_t0)
+__CPROVER_ensures(g_nq == 2 ==> g_cb_seq[1] == g_t1)
+__CPROVER_ensures(WK_REDO ==> g_cb_seq[g_nq] == g_t0)
+/* each run takes its task's count down by exactly one; the re-dispatch from the callback adds one unless it
+ * consumes a prep (which was counted already) */
+__CPROVER_ensures((g_nq >= 1 && !WK_REDO) ==> (g_t0->task_busy == OLD(g_t0->task_busy) - 1u && g_t0->task_prep == OLD(g_t0->task_prep)))
+__CPROVER_ensures(WK_REDO ==> (g_t0->task_busy == OLD(g_t0->task_busy) - 1u - (OLD(g_t0->task_prep) ? 1u : 0u) && !g_t0->task_prep))
+__CPROVER_ensures(g_nq == 2 ==> g_t1->task_busy == OLD(g_t1->task_busy) - 1u)
+__CPROVER_ensures(g_nq < 1 ==> g_t0->task_busy == OLD(g_t0->task_busy))
+__CPROVER_ensures(g_nq < 2 ==> g_t1->task_busy == OLD(g_t1->task_busy))
+__CPROVER_ensures(g_nq < 1 ==> g_t0->task_prep == OLD(g_t0->task_prep))
+/* task waiters are woken exactly when the count reaches zero */
+__CPROVER_ensures(g_wk_task0 == OLD(g_wk_task0) + ((g_nq >= 1 && g_t0->task_busy == 0) ? 1u : 0u))
+__CPROVER_ensures(g_wk_task1 == OLD(g_wk_task1) + ((g_nq == 2 && g_t1->task_busy == 0) ? 1u : 0u))
+/* drain waiters are woken every time the queue is found empty; the thread sleeps only on an empty queue while running */
+__CPROVER_ensures(g_wk_drain == OLD(g_wk_drain) + (OLD(g_tq->tq_run) ? 2u : 1u) && g_cv_waited == OLD(g_tq->tq_run))
+__CPROVER_ensures(g_wk_sched == OLD(g_wk_sched) + (WK_REDO ? 1u : 0u))
+COVER(g_nq == 2 && g_cb_mode == 1 && OLD(g_tq->tq_run) && g_t0->task_busy == 0 && g_t1->task_busy == 3)
+COVER(g_nq == 0 && !OLD(g_tq->tq_run))
+COVER(g_nq == 1 && g_cb_mode == 0 && g_t0->task_busy == 0)
 ;
 /* clang-format on */
 #endif
